@@ -56,20 +56,24 @@ class Exec(ExprMixin, CallMixin, StmtMixin, ComprehensionMixin):
 def instantiate(ob):
     """quantifier instantiation of the kept schemas on the relevant terms of the VC"""
     by_kind = {}
-    for kind, t in list(ob.terms) + list(ob.skolems):
+    # hypotheses local to this obligation (a quantified antecedent of the goal) travel with its Skolem list
+    local = [t for kind, t in ob.skolems if kind == "__schema__"]
+    skolems = [(kind, t) for kind, t in ob.skolems if kind != "__schema__"]
+    for kind, t in list(ob.terms) + skolems:
         by_kind.setdefault(kind, {})[str(t)] = t
     # a schema over configurations is also instantiated on the goal's reference Skolems
-    for kind, t in ob.skolems:
+    for kind, t in skolems:
         if kind == "ref":
             by_kind.setdefault("cfg", {})[str(t)] = t
     # terms introduced by the schemas themselves (a Skolem function applied to an instantiation term), one round
-    for sch in ob.schemas:
+    all_schemas = list(ob.schemas) + local
+    for sch in all_schemas:
         if getattr(sch, "derive", None) is not None:
             for t in list(by_kind.get(sch.kind, {}).values()):
                 for kind2, t2 in sch.derive(t):
                     by_kind.setdefault(kind2, {})[str(t2)] = t2
     out = []
-    for sch in ob.schemas:
+    for sch in all_schemas:
         for t in by_kind.get(sch.kind, {}).values():
             out.append(sch.fn(t))
     return out
